@@ -679,7 +679,7 @@ def d1(
         raise ValueError("all elements in time_to_maturity have to be non-negative")
     if not (v >= 0).all():
         raise ValueError("all elements in volatility have to be non-negative")
-    variance = v * t.sqrt()
+    variance = v * t.sqrt() + 0.0  # (+ 0.0: a time or volatility of -0.0 is zero, not a negative number)
     output = s / variance + variance / 2
     # TODO(simaki): Replace zeros_like with 0.0 once https://github.com/pytorch/pytorch/pull/62084 is merged
     return output.where((s != 0).logical_or(variance != 0), torch.zeros_like(output))
@@ -716,7 +716,7 @@ def d2(
         raise ValueError("all elements in time_to_maturity have to be non-negative")
     if not (v >= 0).all():
         raise ValueError("all elements in volatility have to be non-negative")
-    variance = v * t.sqrt()
+    variance = v * t.sqrt() + 0.0  # (+ 0.0: a time or volatility of -0.0 is zero, not a negative number)
     output = s / variance - variance / 2
     # TODO(simaki): Replace zeros_like with 0.0 once https://github.com/pytorch/pytorch/pull/62084 is merged
     return output.where((s != 0).logical_or(variance != 0), torch.zeros_like(output))
